@@ -104,7 +104,7 @@ func c06() {
 			return
 		}
 		run.Count("label_programs", 1)
-		out, err, pan := vlib.BuildLabelProgram(ops)
+		out, err, pan, again := vlib.BuildLabelProgramAgain(ops)
 		replay := map[string]any{"check": "C06", "desc": desc, "case": i, "ops": ops}
 		if pan != nil {
 			run.Violation("builder-panics", fmt.Sprintf("%s: the builder panics on a forward label program: %v", desc, pan), replay)
@@ -139,6 +139,20 @@ func c06() {
 			_ = raw
 			run.Violation("jump-target-not-preserved", fmt.Sprintf("%s (%d ops -> %d instructions): %v", desc, len(ops), len(out), berr), replay)
 			return
+		}
+		// the same Program assembled a second time (a legitimate call sequence of the public builder) must still behave
+		// like the label program
+		if i%3 == 0 && again != nil {
+			out2, err2, pan2 := again()
+			run.Count("programs_assembled_twice", 1)
+			if pan2 != nil || err2 != nil {
+				run.Violation("second-assemble-fails", fmt.Sprintf("%s: a second Assemble on the same Program fails: err=%v panic=%v", desc, err2, pan2), replay)
+				return
+			}
+			if _, berr2 := vlib.Bisim(ops, out2, false); berr2 != nil {
+				run.Violation("second-assemble-differs", fmt.Sprintf("%s (%d ops): the first Assemble is equivalent to the label program, a second Assemble on the same Program is not: %v", desc, len(ops), berr2), replay)
+				return
+			}
 		}
 		run.Count("equivalent_programs", 1)
 		mu.Lock()
